@@ -29,6 +29,9 @@ def parseOp (j : J) : Except String (Option AOp) := do
   | [J.str "to_dna"] => pure (some .toDna)
   | [J.str "add", J.str "self"] => pure (some .addSelf)
   | [J.str "add", J.str "copy"] => pure (some .addCopy)
+  | [J.str "degapped_relative_to", n] => pure (some (.degap (← n.toStr)))
+  | [J.str "sample", locs, ml] => pure (some (.sample (← locs.toListOf J.toInt) (← ml.toInt)))
+  | [J.str "to_type_roundtrip"] => pure (some .reparse)
   | [J.str "keep", locs] => pure (some (.keep (← locs.toListOf (J.toPairOf J.toInt J.toInt))))
   | _ => pure none
 
